@@ -64,7 +64,35 @@ func c09_13(c *core.Ctx, p *core.Prog) {
 				n++
 				v := core.StripConv(core.Canon(core.StripConv(d)))
 				key := fmt.Sprintf("arm#%d@%s", n, core.FuncName(fn))
-				c.Check(isFieldLoad(v, timeoutF), key, p.Pos(cl.Pos()), core.FuncName(fn), "armed with the configured timeout",
+				isTimeout := func(x ssa.Value) bool {
+					return isFieldLoad(core.StripConv(core.Canon(core.StripConv(x))), timeoutF)
+				}
+				okArm := isTimeout(v)
+				if prm, isP := v.(*ssa.Parameter); isP && !okArm && fn.Parent() == nil {
+					// a helper that is handed the duration (`resetTimer(t, timeout)`): every call site passes the field
+					idx := -1
+					for k, q := range fn.Params {
+						if q == prm {
+							idx = k
+						}
+					}
+					sites, all := 0, true
+					for _, g := range p.FuncsIn(func(pp string) bool { return pp == core.CBPPath }) {
+						for _, g2 := range core.WithClosures(g) {
+							core.EachCall(g2, func(ci ssa.CallInstruction) {
+								if ci.Common().StaticCallee() != fn || idx < 0 || idx >= len(ci.Common().Args) {
+									return
+								}
+								sites++
+								if !isTimeout(ci.Common().Args[idx]) {
+									all = false
+								}
+							})
+						}
+					}
+					okArm = sites > 0 && all
+				}
+				c.Check(okArm, key, p.Pos(cl.Pos()), core.FuncName(fn), "armed with the configured timeout",
 					"the batch timer is armed with something other than the configured timeout ("+timeoutF.Name()+") itself — a scaled or backed-off interval: an item accepted after an idle stretch is flushed later than `timeout` after it was accepted")
 			})
 		}
